@@ -3,7 +3,7 @@
 A Surfer ASCII grid is modelled as: line 1 (free text), four header lines whose whitespace-separated
 tokens have symbolic numeric values, and a body that numpy.loadtxt turns into a (rows, cols) float
 array. String parsing itself (str.split/strip, int()/float() of a token, loadtxt) is ASSUMED."""
-from .arr import SymArr, havoc_array, new_array
+from .arr import parse_dtype, SymArr, havoc_array, new_array
 from .core import Proxy  # noqa
 from .core import SymNum, Unsupported, ctx, is_sym
 
@@ -137,9 +137,19 @@ def sym_loadtxt(fobj, dtype=None, **kw):
     if fobj.unparsable is not False and bool(fobj.unparsable):
         # numpy.loadtxt raises ValueError for rows of unequal length / tokens that are not numbers
         raise ValueError("Wrong number of columns / could not convert string to float (numpy.loadtxt)")
+    max_rows = kw.pop("max_rows", None)
+    if kw:
+        raise Unsupported("numpy.loadtxt with %s" % sorted(kw))
+    if dtype is not None and parse_dtype(dtype).kind != "f":
+        raise Unsupported("numpy.loadtxt with dtype %r" % (dtype,))
     fobj.body_read = True
     snap = fobj.body.snapshot()
-    return new_array(fobj.body.shape, lambda idx: snap(*idx), "f")
+    out = new_array(fobj.body.shape, lambda idx: snap(*idx), "f")
+    if max_rows is not None:
+        # only the first max_rows rows of the body are parsed (the rest of the file is left unread)
+        _use("numpy.loadtxt(max_rows=...)")
+        out = out[:max_rows]
+    return out
 
 
 class OpenStub:
